@@ -45,7 +45,8 @@ class Job:
 
     def __init__(self, name, cfiles, entry, enforce=None, replace=(), loop_contracts=True, unwind=None,
                  flags=(), defines=(), timeout=600, kind='contract', backend='sat', prop=None, unit=None,
-                 expect_fail=(), mem_gb=12, info=None, objbits=None, includes=(), pre_unwind=None, unwind_rules=()):
+                 expect_fail=(), mem_gb=12, info=None, objbits=None, includes=(), pre_unwind=None, unwind_rules=(), split=1):
+        self.split = split                  # check the obligations in this many groups, one solver process per group, in parallel
         self.pre_unwind = pre_unwind        # default bound for loops without loop contract, unwound BEFORE contract instrumentation
         self.unwind_rules = list(unwind_rules)   # [(regex on the loop's source line, bound)]
         self.name = name
@@ -188,33 +189,8 @@ def run_job(job, workdir):
         cmd3 += ['--sat-solver', 'cadical']
     cmds.append(' '.join(cmd3))
     res['cmd'] = ' && '.join(cmds)
-    rc, out, err, t = run(cmd3, job.timeout, job.mem_gb)
-    res['time'] += t
-    res['solver_time'] = t
-    if rc == -9:
-        res['log'] = 'cbmc timeout after %ss' % job.timeout
-        res['status'] = 'trouble'
-        return res
-    try:
-        msgs = json.loads(out)
-    except Exception as e:
-        res['log'] = 'cbmc output not JSON (rc=%s): %s\n%s' % (rc, e, (out + err)[-3000:])
-        return res
-    results = None
-    errors = []
-    for m in msgs:
-        if isinstance(m, dict):
-            if 'result' in m:
-                results = m['result']
-            if m.get('messageType') == 'ERROR':
-                errors.append(m.get('messageText', ''))
-            if m.get('messageType') == 'WARNING' and 'ignoring' in m.get('messageText', ''):
-                errors.append('quantifier ignored: ' + m.get('messageText', ''))
-    if results is None:
-        res['log'] = 'cbmc gave no result list (rc=%s): %s' % (rc, '\n'.join(errors)[-3000:] + err[-2000:])
-        return res
-    if any(e.startswith('quantifier ignored') for e in errors):
-        res['log'] = '\n'.join(errors)
+    results, errors, trouble = cbmc_results(cmd3, job, res)
+    if trouble:
         return res
     for r in results:
         pn, desc, st = r.get('property', ''), r.get('description', ''), r.get('status', '')
@@ -242,6 +218,65 @@ def run_job(job, workdir):
     res['binary'] = binf
     res['cbmc_cmd'] = cmd3
     return res
+
+
+def parse_cbmc(out, err, rc):
+    """-> (results list or None, error strings)"""
+    try:
+        msgs = json.loads(out)
+    except Exception as e:
+        return None, ['cbmc output not JSON (rc=%s): %s\n%s' % (rc, e, (out + err)[-3000:])]
+    results, errors = None, []
+    for m in msgs:
+        if isinstance(m, dict):
+            if 'result' in m:
+                results = m['result']
+            if m.get('messageType') == 'ERROR':
+                errors.append(m.get('messageText', ''))
+            if m.get('messageType') == 'WARNING' and 'ignoring' in m.get('messageText', ''):
+                errors.append('quantifier ignored: ' + m.get('messageText', ''))
+    return results, errors
+
+
+def cbmc_results(cmd3, job, res):
+    """run cbmc (optionally split into property groups run in parallel); fills res on trouble -> (results, errors, trouble?)"""
+    groups = [None]
+    if job.split > 1:
+        rc, out, err, t = run(cmd3 + ['--show-properties'], 300, job.mem_gb)
+        try:
+            props = [p['name'] for m in json.loads(out) if isinstance(m, dict) and 'properties' in m for p in m['properties']]
+        except Exception:
+            props = []
+        if len(props) >= job.split:
+            groups = [props[i::job.split] for i in range(job.split)]
+    def one(g):
+        cmd = cmd3 + (sum([['--property', p] for p in g], []) if g else [])
+        return run(cmd, job.timeout, job.mem_gb)
+    if len(groups) == 1:
+        outs = [one(groups[0])]
+    else:
+        with ThreadPoolExecutor(max_workers=len(groups)) as ex:
+            outs = list(ex.map(one, groups))
+    allres, allerr = [], []
+    for rc, out, err, t in outs:
+        res['time'] = max(res['time'], 0) + (t if len(outs) == 1 else 0)
+        res['solver_time'] = max(res.get('solver_time', 0.0), t)
+        if rc == -9:
+            res['log'] = 'cbmc timeout after %ss' % job.timeout
+            res['status'] = 'trouble'
+            return None, None, True
+        r, e = parse_cbmc(out, err, rc)
+        allerr += e
+        if r is None:
+            res['log'] = 'cbmc gave no result list (rc=%s): %s' % (rc, '\n'.join(e)[-3000:] + err[-2000:])
+            return None, None, True
+        allres += r
+    if len(outs) > 1:
+        res['time'] += res['solver_time']
+    if any(e.startswith('quantifier ignored') for e in allerr):
+        res['log'] = '\n'.join(allerr)
+        return None, None, True
+    return allres, allerr, False
 
 
 def trace_for(job, res, workdir, prop_id, timeout=600):
